@@ -369,6 +369,7 @@ def handle (toks : List String) : String :=
   -- a NaN or an infinity anywhere in an output is never "the optimal value function"
   let outs := (toks.dropWhile (· != "|"))
   if outs.any (fun t => t == "nan" || t == "inf" || t == "-inf") then s!"fail {componentOf (toks.headD "")} not_finite" else
+  if outs == ["|", "timeout"] then s!"fail {componentOf (toks.headD "")} does_not_terminate" else
   let r := match toks with
     | "gp" :: rest => P.run gp rest
     | "settol" :: rest => P.run settol rest
